@@ -14,7 +14,7 @@ ln -s /verif/harness "$vd/harness"; cp /verif/known_findings.json "$vd/"
 export GOFLAGS=-mod=mod GOPROXY=off GOSUMDB=off GOTOOLCHAIN=local
 for id in "$@"; do
   start=$(date +%s)
-  GOSYM_REPO=$wt GOSYM_VERIF=$vd /verif/bin/gosym check $id --tier $tier ${WORKERS:+--workers $WORKERS} > /tmp/mc/$name/$id.log 2>&1
+  GOSYM_REPO=$wt GOSYM_VERIF=$vd /verif/bin/gosym check $id --tier $tier ${WORKERS:+--workers $WORKERS} ${ONLY:+--only $ONLY} > /tmp/mc/$name/$id.log 2>&1
   rc=$?
   echo "MUT $(basename $(dirname $patch))/$(basename $patch) $id tier=$tier exit=$rc $(( $(date +%s) - start ))s :: $(grep -E 'VIOLATION|counterexample|INCONCLUSIVE|ENGINE-DIS|^OK' /tmp/mc/$name/$id.log | head -3 | cut -c1-300 | tr '\n' '|')"
 done
